@@ -251,8 +251,12 @@ fn new_session<'g>(g: &'g Gram, out: &mut Out, how: &str, seed: u64) -> Session<
 
 /// C06 / C16: every emitting method once, in the context its kind needs, then complete the
 /// module, assemble, load, compare.
+/// the callable methods the pinned table (spec/BuilderMethods.json) knows: a method added to the tree later is not
+/// spoken about by any listed property and is not driven
+fn pinned(table: &Value) -> Vec<&'static str> { METHODS.iter().cloned().filter(|m| table.get(*m).is_some()).collect() }
+
 fn suite_methods(g: &Gram, out: &mut Out, seed: u64, table: &Value) {
-    for (k, name) in METHODS.iter().enumerate() {
+    for (k, name) in pinned(table).iter().enumerate() {
         let kind = table[*name]["kind"].as_str().unwrap_or("?").to_string();
         if matches!(kind.as_str(), "select_function" | "select_block" | "pop" | "id" | "end_function" | "begin_block" | "begin_block_no_label" | "begin_function" | "param") {
             continue; // structural calls are exercised by the histories
@@ -321,7 +325,7 @@ fn concrete_of(abs: &str, rng: &mut Rng, terms: &[&str], blocks: &[&str], global
 }
 
 fn run_history(g: &Gram, out: &mut Out, h: &Value, seed: u64, table: &Value) {
-    let terms: Vec<&str> = METHODS.iter().cloned().filter(|m| table[*m]["kind"] == "term").collect();
+    let terms: Vec<&str> = pinned(table).into_iter().filter(|m| table[*m]["kind"] == "term").collect();
     let blocks: Vec<&str> = vec!["nop", "i_add", "load", "store", "f_mul", "bitcast", "phi", "function_call", "copy_object", "access_chain", "selection_merge", "control_barrier"];
     let globals: Vec<&str> = vec!["capability", "extension", "ext_inst_import", "memory_model", "entry_point", "execution_mode", "source", "name", "member_name",
         "module_processed", "decorate", "member_decorate", "string", "decoration_group", "source_extension", "type_forward_pointer"];
@@ -360,7 +364,7 @@ fn random_history(g: &Gram, out: &mut Out, seed: u64, table: &Value, len: usize)
     let mut rng = Rng::new(seed);
     let how = *rng.pick(&["new", "new", "new", "default", "from_module"]);
     let mut s = new_session(g, out, how, seed);
-    let emitting: Vec<&str> = METHODS.iter().cloned().collect();
+    let emitting: Vec<&str> = pinned(table);
     for _ in 0..len {
         s.a.explicit_rid = None; s.a.index = None; s.a.ip = json!(["End"]);
         let name: String = match rng.below(16) {
@@ -400,7 +404,7 @@ fn random_history(g: &Gram, out: &mut Out, seed: u64, table: &Value, len: usize)
 /// C13: id discipline under failing calls, and type de-duplication over every type method
 fn suite_ids(g: &Gram, out: &mut Out, seed: u64, table: &Value) {
     let mut k = 0u64;
-    for name in METHODS.iter() {
+    for name in pinned(table).iter() {
         let kind = table[*name]["kind"].as_str().unwrap_or("");
         k += 1;
         if kind == "type" || kind == "type_id" {
